@@ -60,6 +60,11 @@ def fields_of(js: ast.JoinedStr) -> list[ast.expr]:
 
 
 def check(ctx: Ctx) -> None:
+    _check(ctx)
+    _extra(ctx)
+
+
+def _check(ctx: Ctx) -> None:
     p = ctx.p
     fe = p.func(f"{TOK}.tokenise")
     fd = p.func(f"{TOK}.detokenise")
@@ -385,3 +390,8 @@ def check(ctx: Ctx) -> None:
     types = [enum_member(e, "MessageType") for e in pr_call.args[0].elts] if pr_call is not None and pr_call.args and isinstance(pr_call.args[0], ast.List) else []
     ctx.check({"NOTE_ON", "NOTE_OFF", "TIME_SIGNATURE"} <= set(types), "NOTE", f"tokenise pairs notes and time signatures ({types})", function=fe.qualname,
               construct="tokenise does not request note and time-signature pairings", message=f"{types}", file=fe.file, node=pr_call or fe.node)
+
+
+def _extra(ctx):
+    from ..engines.structure import interleave_rule
+    interleave_rule(ctx)
